@@ -5,6 +5,7 @@
 //! the property's executable oracle on the observed outcome.
 mod gen;
 mod io_script;
+mod net;
 mod suites;
 
 use std::io::Write;
